@@ -90,7 +90,7 @@ pub fn register(l: &mut Vec<Obl>) {
             r.goal("identical_is_zero", x.difference(x).close(T::k(0.0), 1e-9));
             r
         });
-    obl!(l; "c09_ciede2000_symmetric", "C09", Tier::Thorough,
+    obl!(l; "c09_ciede2000_symmetric", "C09", Tier::Open,
         "CIEDE2000 is symmetric (1e-6) for every pair of Lab colours in the box whose hue difference is not within 1e-3 of 180 degrees",
         ["color_difference::get_ciede2000_difference"],
         [var("l1", 0.0, 100.0), var("a1", -128.0, 127.0), var("b1", -128.0, 127.0), var("l2", 0.0, 100.0), var("a2", -128.0, 127.0), var("b2", -128.0, 127.0)];
@@ -100,7 +100,7 @@ pub fn register(l: &mut Vec<Obl>) {
             r.goal("symmetric", x.difference(y).close(y.difference(x), 1e-6));
             r
         });
-    obl!(l; "c09_ciede2000_vs_sharma", "C09", Tier::Thorough,
+    obl!(l; "c09_ciede2000_vs_sharma", "C09", Tier::Open,
         "CIEDE2000 equals the Sharma-Wu-Dalal reference formula (1e-6) for every pair of Lab colours in the box, including hues straddling 0/360 and zero chroma",
         ["color_difference::get_ciede2000_difference", "<Lab as Ciede2000>::difference", "LabColorDiff::from"],
         [var("l1", 0.0, 100.0), var("a1", -128.0, 127.0), var("b1", -128.0, 127.0), var("l2", 0.0, 100.0), var("a2", -128.0, 127.0), var("b2", -128.0, 127.0)];
